@@ -38,7 +38,7 @@ type gmeOpt struct {
 	Name    string
 	Default string
 	MEs     map[string][]string
-	Invalid string // "", "default-missing", "empty-new", "empty-existing"
+	Invalid string // "", "default-missing", "empty-new", "empty-existing"; "duplicate": acceptance is not specified, the consequences are
 }
 
 func (o gmeOpt) build(r, d time.Duration, dial func(context.Context, string, ...grpc.DialOption) (*vgrpc.ClientConn, error)) *GCPMultiEndpointOptions {
@@ -99,7 +99,28 @@ func gmeMenu(thorough bool) []gmeOpt {
 			inv("empty-new", mk("d", "d", "2,3", "r", "1", "n", "")),
 		)
 	}
+	// a list that names an endpoint twice: the statement does not say whether it is accepted; whatever
+	// the answer, a rejection must leave routing unchanged and an acceptance must behave like the
+	// list without the repetition (no later RPC may panic or reach a closed pool)
+	menu = append(menu,
+		inv("duplicate", mk("d", "d", "3,3")),
+		inv("duplicate", mk("d", "d", "1,2", "n", "2,2")),
+	)
 	return menu
+}
+
+func dedupOpt(o gmeOpt) gmeOpt {
+	n := gmeOpt{Name: o.Name, Default: o.Default, MEs: map[string][]string{}}
+	for k, l := range o.MEs {
+		var out []string
+		for _, e := range l {
+			if !contains(out, e) {
+				out = append(out, e)
+			}
+		}
+		n.MEs[k] = out
+	}
+	return n
 }
 
 // ---- reference ----
@@ -194,6 +215,9 @@ func newGMEWorld(s *vsched.Sched, cfg gmeCfg, menu []gmeOpt) *gmeWorld {
 	s.WaitQuiescent()
 	if !w.classify(th, "construct") {
 		return w
+	}
+	if o.Invalid == "duplicate" && !cfg.DialFail && err == nil {
+		o = dedupOpt(o) // accepted: behaves like the list without the repetition
 	}
 	if o.Invalid != "" || cfg.DialFail {
 		kind := o.Invalid
@@ -445,12 +469,16 @@ func (w *gmeWorld) doUpdate(o gmeOpt, reuse *GCPMultiEndpointOptions) {
 	}
 	_, e3open := w.open["e3"]
 	expectDialErr := w.dialFail && mentionsE3 && !e3open
+	if o.Invalid == "duplicate" && !expectDialErr && err == nil {
+		o = dedupOpt(o) // accepted: behaves like the list without the repetition
+	}
 	if o.Invalid != "" || expectDialErr {
 		kind := o.Invalid
 		if kind == "" {
 			kind = "dial-failure"
 		}
 		if err == nil {
+			// (kind "duplicate" never gets here with a nil error: it was turned into its valid equivalent above)
 			w.violate("C16", "C16.A1", "update accepted invalid options ("+kind+")", "UpdateMultiEndpoints returned nil error")
 			w.poisoned = true // the state after a wrongly accepted update is not defined
 			return
@@ -795,7 +823,13 @@ func gmeDriverBody(variant int) func(s *vsched.Sched) *vsched.ExecOutcome {
 		if w.poisoned {
 			return &vsched.ExecOutcome{Outcome: "setup-failed", Violations: w.Take()}
 		}
-		targets := [][]int{{6}, {0}, {4, 1}, {}}[variant] // updates applied by the updater thread; variant 3: Close instead
+		// updates applied by the updater thread; variant 3: Close instead; variant 4: the named caller
+		// uses a name no MultiEndpoint has (routed through the default one)
+		targets := [][]int{{6}, {0}, {4, 1}, {}, {6}}[variant]
+		named := "r"
+		if variant == 4 {
+			named = "no-such-multiendpoint"
+		}
 		updDone := false
 		var lateClosed []string
 		rpc := func(name string) func() {
@@ -823,7 +857,7 @@ func gmeDriverBody(variant int) func(s *vsched.Sched) *vsched.ExecOutcome {
 		}
 		ths := []*vsched.Thread{
 			s.Go("rpcDefault", rpc("")),
-			s.Go("rpcNamed", rpc("r")),
+			s.Go("rpcNamed", rpc(named)),
 			s.Go("updater", func() {
 				for _, t := range targets {
 					w.gme.UpdateMultiEndpoints(menu[t].build(0, 0, w.dial))
@@ -853,6 +887,9 @@ func gmeDriverBody(variant int) func(s *vsched.Sched) *vsched.ExecOutcome {
 				out = append(out, names[i]+":panic")
 			case !th.Done():
 				add("C16", "C16.A2", "thread "+names[i]+" blocked forever", th.Desc)
+				if strings.HasPrefix(names[i], "rpc") {
+					add("C15", "C15.G1", "RPC "+names[i]+" overlapping a reconfiguration is never routed", th.Desc)
+				}
 				out = append(out, names[i]+":blocked")
 			default:
 				out = append(out, names[i]+":ok")
@@ -887,7 +924,7 @@ func runGMEDrivers(c *vsched.RunCtx, race bool) {
 	if c.Thorough() {
 		pre, delay = 2, 4
 	}
-	for v := 0; v < 4; v++ {
+	for v := 0; v < 5; v++ {
 		name := fmt.Sprintf("variant=%d", v)
 		if c.Replay != nil {
 			if c.Replay.Harness == "sched:gme-update" && c.Replay.Config == name {
